@@ -10,14 +10,14 @@ CHECKS = {
         text="Static, exhaustive over the code: every store into the code-point mapping is guarded by absence and the duplicate "
              "raises InvalidFontData which no handler on a compile path can swallow; one glyph order feeds all ordered emissions; "
              ".notdef precedes order computation on all paths; BMP split and UVS branch structure. Necessary structural clauses "
-             "only; the ordering function itself is not evaluated. The compilers never fill in or override their glyphOrder option (a source is ordered by the caller's argument or its own public.glyphOrder).",
+             "only; the ordering function itself is not evaluated. The compilers never fill in or override their glyphOrder option (a source is ordered by the caller's argument or its own public.glyphOrder). A glyph a filter copies from another layer under a new name loses its code points first; glyph copies keep every code point.",
         design_ref="DESIGN.md §5 C03", note=STATIC_NOTE,
         technique="static analysis: CFG control-dependence + dominance rules, call-graph exception-handler audit"),
     "C12": dict(
         text="Static: subroutiniser dispatch and version-default table are exhaustive over their enums; every unsupported combination "
              "reaches NotImplementedError (guard formulas checked by propositional entailment, form-independent); specialise/subroutinise "
              "thresholds agree with the IntEnum order; interpolatable masters are forced to NONE on every path; the four options reach "
-             "their consumers by name. Does not decide that the drawn outlines are equal across combinations.",
+             "their consumers by name. Does not decide that the drawn outlines are equal across combinations. The subroutiniser that runs is the requested one; the encoding options are invisible to pre-processing and layout code (not even as a parameter name).",
         design_ref="DESIGN.md §5 C12", note=STATIC_NOTE,
         technique="static analysis: enum/dispatch-table exhaustiveness, guard facts from control dependence, dominance, signature agreement"),
     "C16": dict(
@@ -25,7 +25,7 @@ CHECKS = {
              "specialisation): fallback lookup is total and terminates (acyclic dependency graph); the PostScript sanitiser's tests "
              "provably apply to the appended character (propositional entailment over the guards, stable reaching definitions); every CFF "
              "string sink is fed through the reducer (4 listed known findings); the VF info override forwards every info-derived field; "
-             "every UFO3 fontinfo attribute is consumed or reviewed-unused. the object getAttrWithFallback returns is never modified in place; info values are compared with None, never tested by truthiness (reviewed string / list exceptions); styleMapStyleName is translated to the fsSelection / macStyle bits the OpenType spec assigns and the two tables agree. Other field values are not decided.",
+             "every UFO3 fontinfo attribute is consumed or reviewed-unused. the object getAttrWithFallback returns is never modified in place; info values are compared with None, never tested by truthiness (reviewed string / list exceptions); styleMapStyleName is translated to the fsSelection / macStyle bits the OpenType spec assigns and the two tables agree. Other field values are not decided. A built name record is skipped only when a record with the same four keys exists; InfoCompiler copies a compiled override whenever the field exists.",
         design_ref="DESIGN.md §5 C16", note=STATIC_NOTE,
         technique="static analysis: constant propagation, fallback call-graph cycle check, value-flow sanitiser rule, taint of info-derived fields"),
     "C13": dict(
@@ -33,7 +33,7 @@ CHECKS = {
              "constructors); both sibling filters decompose with include=<skip set>, decomposeNested=False, delete every skipped glyph "
              "and report it; every lib-derived assignment of the compiler's skip list is guarded by 'is None' (argument wins); kerning "
              "groups, recorded pairs (guard formulas by propositional entailment, both kern writers, static and variable) and GDEF "
-             "classes are restricted to the filtered glyph set. Rendering equality of remaining glyphs is not decided. The kern writers' mark filtering set only lists exported glyphs and the IgnoreMarks / filtering-set decision is made on its members; scripts are guessed from exported glyphs only.",
+             "classes are restricted to the filtered glyph set. Rendering equality of remaining glyphs is not decided. The kern writers' mark filtering set only lists exported glyphs and the IgnoreMarks / filtering-set decision is made on its members; scripts are guessed from exported glyphs only. An instance generated from a designspace ends up with the designspace's skip list; the union of lib keys covers every UFO.",
         design_ref="DESIGN.md §5 C13", note=STATIC_NOTE,
         technique="static analysis: CFG dominance/path rules, sibling agreement, guard entailment over control-dependence facts"),
     "C07": dict(
@@ -42,7 +42,7 @@ CHECKS = {
              "third-party in-place converters) each decided 'receiver owned' or 'receiver reachable from the ufo / ufos / "
              "designSpaceDoc argument'; plus escape of borrowed objects into the working glyph set, copy completeness of "
              "_copyGlyph/_copyLayer/from_layer, rememberCurveType-implies-inplace, and the linked obligations the analysis' "
-             "assumptions rest on. 8 genuine instances are listed known findings. Does not decide equality of source snapshots at run time.",
+             "assumptions rest on. 8 genuine instances are listed known findings. Does not decide equality of source snapshots at run time. Nothing writes into a designspace source's location dictionary; the value getAttrWithFallback returns is never modified in place; the explicit notdefGlyph option is the caller's object.",
         design_ref="DESIGN.md §5 C07, §3 E3", note=STATIC_NOTE + " Fields are keyed by (class family, attribute); two-level object abstraction; "
              "unresolved callees are assumed not to mutate their arguments (count reported in evidence).",
         technique="static analysis: interprocedural ownership/effect (taint) analysis with call-site specialisation, field sensitivity, flow-sensitive locals"),
@@ -51,7 +51,7 @@ CHECKS = {
              "typestate 'context read only after set_context' on every __call__; mutation-then-constant-False-return paths excluded "
              "(CFG path rule with mutation summaries of helper functions and a flag-feasibility refinement); every glyph-set insertion / "
              "deletion is reported; ownership analysis seeded at the filters' font parameter shows no write to the font (6 listed known "
-             "findings); include+exclude raise. Does not decide that reported/unreported glyphs really did/did not change. Memoising decorators on filter methods are violations (shared with C08).",
+             "findings); include+exclude raise. Does not decide that reported/unreported glyphs really did/did not change. Memoising decorators on filter methods are violations (shared with C08). loadFilters forwards include / exclude exactly as stored in the lib.",
         design_ref="DESIGN.md §5 C14, §3 E3/E8", note=STATIC_NOTE,
         technique="static analysis: typestate via dominators, CFG path rules with interprocedural mutation summaries, ownership analysis, guard entailment"),
     "C20": dict(
@@ -59,7 +59,7 @@ CHECKS = {
              "(explicit script/language statements from code-point-derived scripts vs. bare lookups that depend on languagesystem), "
              "derived from the statement kinds reachable from each writer's _write. All writers must share one mode unless something "
              "generates languagesystem statements. Today's mismatch (kern explicit, mark and curs implicit) is a genuine defect recorded "
-             "as two known findings; any further writer or mode change is a new violation. Where scripts are registered explicitly the languages under a tag are those declared for that tag; writers keep no per-font state / memoised classification. The compiled ScriptList is not evaluated. getScriptLanguageSystems files every declared language under the statement's own OT script tag.",
+             "as two known findings; any further writer or mode change is a new violation. Where scripts are registered explicitly the languages under a tag are those declared for that tag; writers keep no per-font state / memoised classification. The compiled ScriptList is not evaluated. getScriptLanguageSystems files every declared language under the statement's own OT script tag. The font's scripts are guessed from exported glyphs only; generated features are never spliced into a user's block (script / language context).",
         design_ref="DESIGN.md §5 C20", note=STATIC_NOTE,
         technique="static analysis: per-writer reachability over the call graph + sibling agreement on emitted statement kinds"),
     "C18": dict(
@@ -84,7 +84,7 @@ CHECKS = {
              "propositional evaluation of the guards over all option assignments (filter applied iff the options say so); option->keyword "
              "bindings; the absolute-error formula (structure, per-master UPM); cubic-in-glyf0 guard; glyphDataFormat tied to allQuadratic; "
              "cycle rejection reachable from maxp/glyf and not swallowed by any handler; depth-ordered glyf assembly; otRound/noRound "
-             "selection; option plumbing by name. nested transformations composed as outer o inner with fontTools' Transform algebra, no hand-assembled Transform; components only resolved by util.decomposeCompositeGlyph. The cu2qu error bound and point equality are not decided. Per-run accumulators of interpolatable filters are per master; contours are only redrawn through the cu2qu conversion pen and layers already marked quadratic are left alone; the .notdef the compiler adds is drawn in the output flavour's direction and only when the source has none.",
+             "selection; option plumbing by name. nested transformations composed as outer o inner with fontTools' Transform algebra, no hand-assembled Transform; components only resolved by util.decomposeCompositeGlyph. The cu2qu error bound and point equality are not decided. Per-run accumulators of interpolatable filters are per master; contours are only redrawn through the cu2qu conversion pen and layers already marked quadratic are left alone; the .notdef the compiler adds is drawn in the output flavour's direction and only when the source has none. Mixed glyphs are decomposed, unconditionally, before curves are converted.",
         design_ref="DESIGN.md §5 C02", note=STATIC_NOTE,
         technique="static analysis: exhaustive guard evaluation (decision table), sibling agreement, formula-shape matching after local inlining, call-graph handler audit"),
     "C08": dict(
@@ -96,7 +96,7 @@ CHECKS = {
              "restored in finally, cached options only filled when None; every public compile function builds its own compiler, no "
              "module-/class-level container is mutated at call time; member-adding/removing writes to the caller's sources (ownership "
              "analysis of C07) are history dependence (2 listed known findings); glyph copies use only the UFO glyph protocol. Byte "
-             "identity itself and defcon/ufoLib2 behavioural differences are not decided. Filter objects keep no state outside the per-call context (shared with C14).",
+             "identity itself and defcon/ufoLib2 behavioural differences are not decided. Filter objects keep no state outside the per-call context (shared with C14). The value getAttrWithFallback returns is never modified in place (shared with C16).",
         design_ref="DESIGN.md §5 C08, §3 E4", note=STATIC_NOTE + " Assumes dict iteration order is content (insertion order) and that glyph-class "
              "literals / coverage sets are order-neutral sinks.",
         technique="static analysis: set-kind inference + order-observation site classification with linked sanitiser obligations, nondeterminism-source whitelist, save/restore pairing in try/finally, shared-state mutation scan, ownership analysis"),
@@ -108,7 +108,7 @@ CHECKS = {
              "fontTools' lookupKerningValue per source, splitters copy the value unchanged, quantize = factor*otRound(n/factor); zero "
              "drop only for class-class; rtl flag formula and exclusion of ambiguous-bidi pairs; missing-glyph skips on both sides and "
              "v1/v2 sibling agreement; one bucket per split part (merge re-assignment breaks after the first match). What a shaper applies, "
-             "and that common and script lookups never hold the same glyph pair, are not decided.",
+             "and that common and script lookups never hold the same glyph pair, are not decided. Every kerning class is defined under the unique name computed for it, unchanged; a zero drop written as a truthiness test is seen as one.",
         design_ref="DESIGN.md §5 C05", note=STATIC_NOTE,
         technique="static analysis: reaching-definition value-flow (quantize sanitiser), keyword/role tables checked against parsed fontTools signatures, guard facts, sibling agreement, loop-shape rules"),
     "C06": dict(
@@ -119,7 +119,7 @@ CHECKS = {
              "written and read under anchor.key, argument roles of _defineMarkClass / MarkClassDefinition; ligature components "
              "range(1, max+1) with [] for gaps and numbering >= 1; statement-class table against fontTools; attachment filters "
              "(numbered / class-less / mark glyphs); parseAnchorName prefix logic. no coordinate tested by truthiness; abvm / not-abvm sets cover the glyph set; markGlyphNames filled under the same guards as the mark classes; class name carried over after a name clash. Resulting offsets, lookup grouping and abvm/blwm "
-             "routing are not decided. A coordinate passes through at most one rounding step on its way out of _getAnchor; base / ligature attachments are entailed to be for non-mark glyphs inside the GDEF class when GDEF classes exist.",
+             "routing are not decided. A coordinate passes through at most one rounding step on its way out of _getAnchor; base / ligature attachments are entailed to be for non-mark glyphs inside the GDEF class when GDEF classes exist. The abvm / blwm anchor filters are complementary by construction; the ligature component number is the whole trailing run of digits (regex AST).",
         design_ref="DESIGN.md §5 C06", note=STATIC_NOTE,
         technique="static analysis: argument-role agreement against parsed fontTools signatures, coordinate leaf tracing through reaching definitions, guard facts from control dependence, class-attribute tables"),
     "C09": dict(
@@ -131,7 +131,7 @@ CHECKS = {
              "TTFs keep float coordinates and implied on-curves; sparse table sets are subsets of the compilers' tables chosen by "
              "layerName, placeholders only for missing component bases of non-default masters with the 0xFFFF sentinel; every I-filter "
              "loops over all masters without early exit; location closure for decomposed components; the instantiator's cached glyph models are dropped after every modifying step; interpolatable OTF masters are forced to CFFOptimization.NONE. Point compatibility of the output "
-             "and cu2qu's joint segment counts (fontTools) are not decided.",
+             "and cu2qu's joint segment counts (fontTools) are not decided. Memoising decorators on the instantiator / filters / pre-processors are violations; the mixed-glyph set runs over all glyph sets.",
         design_ref="DESIGN.md §5 C09", note=STATIC_NOTE,
         technique="static analysis: dominance/ordering rules on the pipeline, sibling agreement over class tables, constant evaluation of table sets, loop-shape rules, guard facts"),
     "C10": dict(
@@ -164,7 +164,7 @@ CHECKS = {
              "adjustment only rewrites existing entries, base and mark components partition the components, each position is the base anchor mapped through its own component's "
              "transformation; transformations filter transforms included bases before replaying the composite, compensates components "
              "of transformed bases with the inverse on the inner side, maps every anchor as a point and the advance as a vector, and "
-             "builds its matrix in the documented order. components only resolved by util.decomposeCompositeGlyph (no second decomposer). Affine arithmetic and rendering equality are not decided.",
+             "builds its matrix in the documented order. components only resolved by util.decomposeCompositeGlyph (no second decomposer). Affine arithmetic and rendering equality are not decided. Inside the component loop the recursive anchor propagation is unconditional; the base of a mark ligature is chosen from the components as placed.",
         design_ref="DESIGN.md §5 C15", note=STATIC_NOTE,
         technique="static analysis: formula-shape matching after local inlining, guard facts from control dependence, dominance/order rules, mutation scan of the composite"),
     "C17": dict(
@@ -176,7 +176,7 @@ CHECKS = {
              "existing marker-less tags, overrides defer to the base test; GSUB writers run first; shipped writers declare GPOS/GDEF and "
              "construct none of feaLib's substitution statements (class list parsed from fontTools); user features parsed once and "
              "serialised from the same object; markers only in top-level blocks, first per tag. Marker index arithmetic and GSUB byte "
-             "identity are not decided. include() resolves against the UFO's parent directory with and without writers; generated glyph classes never take a class name the feature file already defines.",
+             "identity are not decided. include() resolves against the UFO's parent directory with and without writers; generated glyph classes never take a class name the feature file already defines. A generated feature is inserted as its own top-level block; a user's block only ever loses statements.",
         design_ref="DESIGN.md §5 C17", note=STATIC_NOTE,
         technique="static analysis: mutation scan with reviewed-site table and linked obligations, guard facts through call sites, class-attribute tables against parsed fontTools classes"),
     "C19": dict(
@@ -200,7 +200,7 @@ CHECKS = {
              "union of glyph boxes, head gets it rounded in its own roles; OS/2 first / last index = min / max code point (capped), "
              "maxp.numGlyphs, post 2.0 names and VORG default / records follow the glyph data. the metrics tables are written by their own builders only. The byte round trip save -> reload -> "
              "save, the bounding-box arithmetic of the pens and the values fontTools recalculates at compile time are NOT decided "
-             "(runtime quantities; no static argument in reach).",
+             "(runtime quantities; no static argument in reach). A glyph loses its box only when the compiled outline is empty; no advance / origin / box value is dropped by a truthiness test.",
         design_ref="DESIGN.md §5 C04", note=STATIC_NOTE,
         technique="static analysis: dominance/order rule, loop-shape and formula-shape matching, list-to-field role table, guard facts"),
 }
